@@ -153,6 +153,24 @@ func detrestAZSuite(c *Ctx) {
 			c06detOracle(c, "az.getColor", img, fmt.Sprint(x1, y1, x2, y2), o)
 			c.Note("c06rest az.getColor " + o)
 		}
+		{ // getColor on the thresholds: a segment of length 10/20/30 with exactly (or one off) 10 % / 90 % cells of the other colour
+			ln := r.Pick([]int{10, 20, 30})
+			tw, ty := ln+r.Range(1, 4), r.Range(0, 2)
+			tm := c06detNew(tw, 3)
+			model := r.Bool()
+			miss := r.Pick([]int{ln / 10, 9 * ln / 10}) + r.Pick([]int{0, 0, 1, -1})
+			for x := 0; x < ln; x++ { // cell 0 is the colour model; the first `miss` cells after it differ
+				if (x >= 1 && x <= miss) != model {
+					tm.Set(x, ty)
+				}
+			}
+			timg := c06detImg{tw, 3, tm, "threshold-segment"}
+			td := azdetector.NewDetector(tm)
+			o := SafeT(5*time.Second, func() string { return fmt.Sprintf("ok %d", td.VerifGetColor(0, ty, ln, ty)) })
+			c.Cmp("c06rest-az", fmt.Sprintf("c06rest azcolor %d 3 %s 0 %d %d %d", tw, c06detBits(tm), ty, ln, ty), o)
+			c06detOracle(c, "az.getColor", timg, fmt.Sprint(0, ty, ln, ty), o)
+			c.Note("c06rest az.getColor threshold " + o)
+		}
 		{
 			var p [8]int
 			for k := 0; k < 4; k++ {
